@@ -1,5 +1,6 @@
 use super::super::Compiler;
 use aelys_common::Result;
+use aelys_common::error::{CompileError, CompileErrorKind};
 use aelys_syntax::Span;
 
 impl Compiler {
@@ -22,6 +23,32 @@ impl Compiler {
             return Ok(());
         }
 
-        self.compile_identifier(member, dest, span)
+        // `x.member` where x is no module alias: there is nothing qualified to look up.
+        // A bare identifier in object position that names nothing at all is reported as such
+        // (`needs f from m` does not make `m` a name); otherwise only builtins are reachable
+        // through a member spelling, exactly as in the untyped compile_member_access.
+        if let TypedExprKind::Identifier(name) = &object.kind
+            && self.resolve_variable(name).is_none()
+            && self.resolve_upvalue(name).is_none()
+            && !self.globals.contains_key(name)
+            && !self.known_globals.contains(name)
+            && !Self::is_builtin(name)
+        {
+            return Err(CompileError::new(
+                CompileErrorKind::UndefinedVariable(name.clone()),
+                object.span,
+                self.source.clone(),
+            )
+            .into());
+        }
+        if Self::is_builtin(member) {
+            return self.compile_identifier(member, dest, span);
+        }
+        Err(CompileError::new(
+            CompileErrorKind::UndefinedVariable(member.to_string()),
+            span,
+            self.source.clone(),
+        )
+        .into())
     }
 }
